@@ -37,8 +37,11 @@ def observe():
     from ..core import cmds
     orders = {"Inquiry": list(range(256)), "Read16": list(range(255, -1, -1)), "TestUnitReady": list(range(256))}
     random.Random(14).shuffle(orders["TestUnitReady"])
+    orders["Read10"] = list(range(256))
     for cls, order in sorted(orders.items()):
         K = cmds.klass(cls)
+        if cls == "Read10":
+            K.marshall_cdb({"lba": 1})       # this class first encodes a dictionary that names no operation code
         for v in order:
             try:
                 n = len(K.marshall_cdb({"opcode": v}))
